@@ -114,7 +114,7 @@ func R06() Rule {
 				c.Infof("R06", fname+"/applyMutations-without-store", s.call.Pos(), "applier result never stored in this function")
 			}
 		}
-		if pairs < 2 {
+		if pairs < 1 {
 			c.Unknown("R06", "floor/applier-writer-pairs", token.NoPos, "only %d applier→writer pairs found (MutateRow, MutateRows, CheckAndMutateRow were confirmed by hand)", pairs)
 		}
 	}}
@@ -245,6 +245,68 @@ func mutationInstrs(p *core.Program, fn *ssa.Function) []ssa.Instruction {
 	return out
 }
 
+// atomicCall: m is a call of an in-package helper whose last result is an error and inside
+// which no mutation of shared state can be followed by an application-error return
+// (checked recursively): the helper either fails or mutates.
+func atomicCall(p *core.Program, m ssa.Instruction, depth int) bool {
+	ci := core.Call(m)
+	if ci == nil || ci.Static == nil || ci.Static.Blocks == nil || depth > 3 || !lastResultIsErrorType(ci.Static) {
+		return false
+	}
+	h := ci.Static
+	for _, hm := range mutationInstrs(p, h) {
+		hAtomic := atomicCall(p, hm, depth+1)
+		for _, r := range returnsIn(h) {
+			if ie, tr := isErrorReturn(r); !ie || tr {
+				continue
+			}
+			if core.InstrReaches(hm, r) && !(hAtomic && errNonNilEdge(hm, r.Block())) {
+				return false
+			}
+		}
+	}
+	return true
+}
+
+// errNonNilEdge: block `at` is only entered when the error result of call m was non-nil.
+func errNonNilEdge(m ssa.Instruction, at *ssa.BasicBlock) bool {
+	call, ok := m.(*ssa.Call)
+	if !ok {
+		return false
+	}
+	var errv []ssa.Value
+	if call.Call.Signature().Results().Len() == 1 {
+		errv = append(errv, call)
+	} else {
+		last := call.Call.Signature().Results().Len() - 1
+		for _, r := range core.Referrers(call) {
+			if ex, isEx := r.(*ssa.Extract); isEx && ex.Index == last {
+				errv = append(errv, ex)
+			}
+		}
+	}
+	for _, f := range core.FactsAt(at) {
+		b, isBin := f.Cond.(*ssa.BinOp)
+		if !isBin {
+			continue
+		}
+		for _, ev := range errv {
+			var other ssa.Value
+			if core.SameValue(b.X, ev) || core.Resolve(b.X) == ev {
+				other = b.Y
+			} else if core.SameValue(b.Y, ev) || core.Resolve(b.Y) == ev {
+				other = b.X
+			} else {
+				continue
+			}
+			if core.IsNilConst(other) && ((b.Op == token.NEQ && f.Polarity) || (b.Op == token.EQL && !f.Polarity)) {
+				return true
+			}
+		}
+	}
+	return false
+}
+
 // R07: no mutation of shared state on a path that ends in an application-error
 // return (validate everything, then apply).
 func R07() Rule {
@@ -274,8 +336,14 @@ func R07() Rule {
 				n++
 				construct := fmt.Sprintf("%s/mutation#%d", fname, i+1)
 				var bad *ssa.Return
+				atomic := atomicCall(c.P, m, 0)
 				for _, r := range errRets {
 					if core.InstrReaches(m, r) {
+						// a helper that mutates only after its last failure point (`w.commit(muts) error`): when it
+						// reports an error nothing was changed, so the caller's return of that error is not "after"
+						if atomic && errNonNilEdge(m, r.Block()) {
+							continue
+						}
 						bad = r
 						break
 					}
